@@ -278,7 +278,7 @@ fn c10_scenario_x(name: &'static str, progs: Vec<Vec<COp>>, topic_initially: boo
 
 pub fn c10_sched(thorough: bool) -> Vec<Unit> {
     use COp::*;
-    let d = if thorough { 4 } else { 3 };
+    let d = if thorough { 5 } else { 3 };
     let progs: Vec<(&'static str, Vec<Vec<COp>>, bool, bool)> = vec![
         ("create-topic‖create-topic", vec![vec![CreateTopic(T0)], vec![CreateTopic(T0)], vec![GetTopic(T0)]], false, false),
         ("create-sub‖create-sub", vec![vec![CreateSub(S0, T0)], vec![CreateSub(S0, T0)], vec![GetSub(S0)]], true, false),
@@ -489,7 +489,23 @@ fn c01_c08_scenario(name: &'static str, progs: Vec<Vec<COp>>, check_order: bool,
                     }
                 }
                 if firsts.windows(2).any(|w| w[0] > w[1]) {
-                    return ScenarioOut::viol(format!("{}/first-deliveries-out-of-publish-order", name), format!("{}: first deliveries in hand-out order carry ids {:?}: {}", s, firsts, key));
+                    return ScenarioOut::viol(format!("{}/first-deliveries-out-of-publish-order", name), format!("{}: first deliveries in hand-out order carry ids {:?}: {}", s, firsts.iter().take(12).collect::<Vec<_>>(), key));
+                }
+                // the messages of one Publish request stay contiguous
+                let req_of: BTreeMap<u64, usize> = published.iter().map(|p| (p.0, p.1)).collect();
+                let mut closed: BTreeSet<usize> = BTreeSet::new();
+                let mut current: Option<usize> = None;
+                for id in &firsts {
+                    let r = req_of[id];
+                    if current != Some(r) {
+                        if let Some(c) = current {
+                            closed.insert(c);
+                        }
+                        if closed.contains(&r) {
+                            return ScenarioOut::viol(format!("{}/request-not-contiguous", name), format!("{}: the messages of one Publish request are interleaved with another request's messages (around id {}): {}", s, id, key));
+                        }
+                        current = Some(r);
+                    }
                 }
             }
         }
@@ -539,9 +555,11 @@ pub fn c08_sched(thorough: bool) -> Vec<Unit> {
         ("cap1:pub2‖pub2‖pull", vec![vec![Publish(T0, 2)], vec![Publish(T0, 2)], vec![PullNow(S0, 1), PullNow(S0, 10)]], (1, 1)),
         ("cap1:pub;pub‖pub;pub", vec![vec![Publish(T0, 1), Publish(T0, 1)], vec![Publish(T0, 1), Publish(T0, 1)], vec![GetSub(S0), GetSub(S1)]], (1, 1)),
         ("cap2:pub‖pub‖pub", vec![vec![Publish(T0, 1)], vec![Publish(T0, 1)], vec![Publish(T0, 2)], vec![PullNow(S1, 1)]], (2, 2)),
+        ("big-batch‖pub;pub", vec![vec![Publish(T0, 1001)], vec![Publish(T0, 1), Publish(T0, 2)]], (0, 0)),
+        ("bigger-batch‖pub;pub", vec![vec![Publish(T0, 2500)], vec![Publish(T0, 1), Publish(T0, 1)]], (0, 0)),
     ];
     for (n, p, caps) in progs {
-        let dd = if p.len() >= 4 { d - 1 } else { d };
+        let dd = if n.contains("batch") { 2 } else if p.len() >= 4 { d - 1 } else { d };
         v.push(explore_unit(format!("sched/{}", n), format!("{:?} (mailbox capacity {:?}); one id per message in request order, ids follow the real-time order of publishes, first deliveries on each subscription (hand-out order) follow id order", p, caps), Bounds::new(dd), ExecCfg { caps, ..Default::default() }, c01_c08_scenario(n, p, true, None)));
     }
     v
@@ -610,7 +628,7 @@ fn c02_scenario(name: &'static str, progs: Vec<Vec<COp>>) -> ScenFn {
 
 pub fn c02_sched(thorough: bool) -> Vec<Unit> {
     use COp::*;
-    let d = if thorough { 4 } else { 3 };
+    let d = if thorough { 5 } else { 3 };
     let progs: Vec<(&'static str, Vec<Vec<COp>>)> = vec![
         ("pull;ack‖pull;ack", vec![vec![PullNow(S0, 1), AckLast(S0)], vec![PullNow(S0, 1), AckLast(S0)]]),
         ("pull;ack‖pull;ack‖pull", vec![vec![PullNow(S0, 1), AckLast(S0)], vec![PullNow(S0, 2), AckLast(S0)], vec![PullNow(S0, 10), PullNow(S1, 1)]]),
